@@ -10,7 +10,7 @@
    engine) and ties the implementation model to the engine by comparing error sets. *)
 From Coq Require Import ZArith List String Bool.
 From TV Require Import Py.Prelude Model.Schema Model.ImplInput Model.ImplExec Model.Envelope
-     Model.ImplValidate Model.SpecValidate Model.RunValidate Proofs.ValidateProofs Proofs.ValidateRules Proofs.ValidateValues Proofs.ValidateSites Proofs.ValidateWalk Proofs.ValidateTree Proofs.SingleRoot.
+     Model.ImplValidate Model.SpecValidate Model.RunValidate Proofs.ValidateProofs Proofs.ValidateRules Proofs.ValidateValues Proofs.ValidateSites Proofs.ValidateWalk Proofs.ValidateTree Proofs.SingleRoot Proofs.ValidateSpreads Proofs.ValidateScopes Proofs.ValidatePure.
 Import ListNotations.
 Open Scope string_scope.
 Open Scope list_scope.
@@ -177,6 +177,40 @@ Theorem C06_one_root_key_written_many_times_accepted doc errs :
   single_root_rule doc = Some errs -> errs = [].
 Proof. exact (single_root_rule_accepts doc errs). Qed.
 
+(* 5.5.2.3: a document whose inline fragments and spreads of defined fragments can all apply where they are written is
+   not reported by the rule *)
+Theorem C06_possible_spreads_accepted V doc :
+  (forall scope tc l, In (scope, (tc, l)) (doc_inl V doc) -> applies_in V scope tc = true) ->
+  (forall scope n l p f, In (scope, (n, l, p)) (doc_spr V doc) -> find_fragment (fragments doc) n = Some f ->
+                         applies_in V scope (Some (fr_type f)) = true) ->
+  inline_possible_errors V (inlined_in (ValidateWalk.walked V doc)) ++
+  spread_possible_errors V (fragments doc) (spreaded_in (ValidateWalk.walked V doc)) = [].
+Proof. intros H1 H2. apply (possible_spreads_exact V doc). split; assumption. Qed.
+
+(* ACCEPTANCE IS A PREDICATE OF THE DOCUMENT: no conjunct mentions the shared, mutable walk context any more.  The books
+   the variable rules read (variables used, arguments whose value is a variable, spreads -- per operation and per fragment)
+   are a pure function of the document (`books_ctx`), and so are the recorded inline fragments and spreads. *)
+Theorem C06_walk_books_are_a_function_of_the_document V doc :
+  per_op (ValidateWalk.walked V doc) = doc_per_op V doc /\ per_frag (ValidateWalk.walked V doc) = doc_per_frag V doc.
+Proof. exact (walked_scopes V doc). Qed.
+
+Theorem C06_acceptance_is_a_predicate_of_the_document V
+  (Hin : forall n ifs f, vfind_type V n = Some (DInput ifs) -> In f ifs -> input_ty V (in_type f))
+  (Hfields : forall scope name f d, vfind_field V scope name = Some f -> In d (fd_args f) -> input_ty V (in_type d))
+  (Hdirs : forall n dd d, vfind_directive V n = Some dd -> In d (dd_args dd) -> input_ty V (in_type d)) doc :
+  accepted V doc = true <->
+  doc_walk_ok V doc = true /\
+  acyclic (fragments doc) /\ r_operation_names doc = true /\ r_lone_anonymous doc = true /\
+  r_fragment_names doc = true /\ r_spread_targets V doc = true /\ r_fragments_used V doc = true /\
+  quiet (single_root_rule doc) /\
+  ((forall scope tc l, In (scope, (tc, l)) (doc_inl V doc) -> applies_in V scope tc = true) /\
+   (forall scope n l p f, In (scope, (n, l, p)) (doc_spr V doc) -> find_fragment (fragments doc) n = Some f ->
+                          applies_in V scope (Some (fr_type f)) = true)) /\
+  quiet (uses_defined_rule (books_ctx V doc) (operations doc)) /\
+  quiet (variables_used_rule (books_ctx V doc) (operations doc)) /\
+  quiet (usages_allowed_rule V (books_ctx V doc) (operations doc)).
+Proof. exact (accepted_is_a_predicate_of_the_document V Hin Hfields Hdirs doc). Qed.
+
 Print Assumptions C06_acyclic_fragments_accepted.
 Print Assumptions C06_distinct_operation_names_accepted.
 Print Assumptions C06_distinct_fragment_names_accepted.
@@ -197,3 +231,6 @@ Print Assumptions C06_correct_arguments_accepted.
 Print Assumptions C06_field_node_exact.
 Print Assumptions C06_acceptance_characterised.
 Print Assumptions C06_one_root_key_written_many_times_accepted.
+Print Assumptions C06_possible_spreads_accepted.
+Print Assumptions C06_walk_books_are_a_function_of_the_document.
+Print Assumptions C06_acceptance_is_a_predicate_of_the_document.
